@@ -35,6 +35,7 @@ type boundObl struct {
 	desc  string
 	goals []ana.ILin // each must be >= 0
 	why   string
+	unsafe bool // not backed by a run-time check: the compiler's BCE result does not apply
 }
 
 // exprDesc renders an index/slice expression without positions.
@@ -71,7 +72,7 @@ func c08Bounds(p *ana.Prog, r *ana.Result, ts *ana.TaintState, pset *ana.ProverS
 		return
 	}
 	r.Trust("the Go compiler's prove/bounds-check-elimination pass (go build -gcflags=-d=ssa/check_bce/debug=1, compile only): an index or slice operation without a residual check at its position cannot panic")
-	nObl, nCompiler, nProver, nLifted := 0, 0, 0, 0
+	nObl, nCompiler, nProver, nLifted, nUnsafe := 0, 0, 0, 0, 0
 	posKey := func(in ssa.Instruction) string {
 		ps := p.Fset.Position(in.Pos())
 		f := strings.TrimPrefix(ps.Filename, p.Dir+"/")
@@ -150,6 +151,38 @@ func c08Bounds(p *ana.Prog, r *ana.Result, ts *ana.TaintState, pset *ana.ProverS
 					return
 				}
 				obls = append(obls, boundObl{fn: f, in: in, desc: exprDesc(in), goals: goals})
+			case *ssa.Convert:
+				// (*T)(unsafe.Pointer(&s[k])): the typed access covers sizeof(T) bytes of s
+				pt, isPtr := x.Type().Underlying().(*types.Pointer)
+				if !isPtr {
+					return
+				}
+				up, isUP := x.X.(*ssa.Convert)
+				if !isUP {
+					return
+				}
+				if b, ok := up.Type().Underlying().(*types.Basic); !ok || b.Kind() != types.UnsafePointer {
+					return
+				}
+				ia, isIA := up.X.(*ssa.IndexAddr)
+				if !isIA || !isSliceType(ia.X.Type()) {
+					return
+				}
+				nUnsafe++
+				if ts.Of(ia.X) == 0 && ts.Of(ia.Index) == 0 {
+					return
+				}
+				size := p.Sizes().Sizeof(pt.Elem())
+				i, ok1 := pr.Int(ia.Index, 0)
+				l, ok2 := pr.Len(ia.X, 0)
+				desc := "unsafe-read:(*" + types.TypeString(pt.Elem(), func(p *types.Package) string { return p.Name() }) + ")(&" + exprDesc(ia) + ")"
+				if !ok1 || !ok2 {
+					obls = append(obls, boundObl{fn: f, in: in, desc: desc, why: "index expression outside the linear domain", unsafe: true})
+					return
+				}
+				g := l.Add(i, -1)
+				g.C -= size
+				obls = append(obls, boundObl{fn: f, in: in, desc: desc, goals: []ana.ILin{i, g}, unsafe: true, why: fmt.Sprintf("a %d-byte access through unsafe.Pointer is not bounds-checked at run time", size)})
 			case *ssa.Call:
 				name := ana.CalleeName(&x.Call)
 				if spec, ok := minLenCallees[name]; ok {
@@ -189,7 +222,7 @@ func c08Bounds(p *ana.Prog, r *ana.Result, ts *ana.TaintState, pset *ana.ProverS
 	for _, o := range obls {
 		fname := ana.FuncName(o.fn)
 		key := "in-range:" + o.desc
-		isPre := strings.HasPrefix(o.desc, "nonce-length")
+		isPre := strings.HasPrefix(o.desc, "nonce-length") || o.unsafe
 		if !isPre {
 			if _, resid := residual[posKey(o.in)]; !resid {
 				nCompiler++
@@ -241,7 +274,7 @@ func c08Bounds(p *ana.Prog, r *ana.Result, ts *ana.TaintState, pset *ana.ProverS
 			}
 		}
 	}
-	r.Table("bounds", map[string]int{"obligations": nObl, "compiler_proved": nCompiler, "prover_proved": nProver, "lifted_to_callers": nLifted, "compiler_residual_positions": len(residual)})
+	r.Table("bounds", map[string]int{"obligations": nObl, "compiler_proved": nCompiler, "prover_proved": nProver, "lifted_to_callers": nLifted, "compiler_residual_positions": len(residual), "unsafe_casts_seen": nUnsafe})
 	r.Floor("C08.bounds.obligations", nObl, 40)
 }
 
